@@ -232,11 +232,11 @@ CLAIMED = {
         'text': 'Deductive proof (Verus) on the verbatim bodies of next_solution, next_solution_and, next_solution_or over the ghost node heap (rule R15, see C05): a node whose cut flag is set answers None and does nothing; '
                 'the clause loop of a call fetches no later clause once the call\'s flag is set; an and-node does not obtain another answer from the goals left of a cut (heap invariant: a flagged node\'s head node is flagged); '
                 'no request changes the cut flag of any node above the call it works in (the caller and its other goals are unaffected). '
-                'What the cut itself does to the flags (SolutionNode::set_no_backtracking, unsafe raw-pointer walk) is ASSUMED at the heap level (specification `walked`) and checked by a bounded enumeration on the real function with real nodes (c02_walk: parent chains of length 0-5 with every combination of head nodes; 329 shapes). '
+                'What the cut itself does to the flags is PROVED on the verbatim unsafe body of SolutionNode::set_no_backtracking (unit cutwalk, rule R17: a raw pointer is a handle on a node of the ghost heap, `(*raw).F` an access to that node\'s field): it flags the node, every node up the parent links and the head node of each of those ancestors, nothing else, and terminates (specification `walked`); its precondition is proved at the call site. A bounded enumeration on the real function with real nodes checks the same specification (c02_walk: 329 shapes). '
                 'A bounded oracle compares the engine with a reference interpreter on 29 queries over a 45-clause program with cuts.',
-        'note': 'Trusted: heap model (T8), R15 (T4), Verus+Z3 (T5). ASSUMED: the specification `walked` of the unsafe walk (flags the node, every node up the parent links, and the head node of each; nothing else) - from it next_solution_bip is PROVED to keep the invariant, to flag the call node and to leave every flag above the call alone (lemma_walk). '
+        'note': 'Trusted: heap model (T8), R15 (T4), Verus+Z3 (T5). Relative to R17 (the raw-pointer accesses of the walk are accesses to the fields of the nodes pointed to; whether they are defined behaviour under a live RefMut is C24, n/a). From `walked` next_solution_bip is PROVED to keep the invariant, to flag the call node and to leave every flag above the call alone (lemma_walk). '
                 'The reference interpreter adopts the documented semantics of the statement (no answer beyond the one being derived).',
-        'technique': 'contract-based deductive verification (Verus) of extracted real code over a ghost heap model of the RefCell node graph + bounded enumeration of the unsafe cut walk on real nodes',
+        'technique': 'contract-based deductive verification (Verus) of extracted real code over a ghost heap model of the RefCell node graph, including the unsafe cut walk + bounded enumeration of that walk on real nodes',
         'design_ref': 'DESIGN.md 8.24',
     },
     'C03': {
